@@ -123,6 +123,7 @@ def execute(case: dict) -> dict:
         return rec
     from .. import viafile
     ds = viafile.hold_ds(w, W.build(w))
+    _before = CD.snapshot(ds)
     conv = W.bind(w, ds)
     tw = CD.tlc_world(w)
     if w["conv"] == "ugrid":
@@ -142,6 +143,7 @@ def execute(case: dict) -> dict:
             from emsarray.conventions.ugrid import mask_from_face_indexes
             e["obs"] = outcome(lambda: proj_mask(w, mask_from_face_indexes(numpy.array(e["faces"], dtype=int), conv.topology)))
         rec["events"].append(e)
+    rec["input"] = {"before": _before, "after": CD.snapshot(ds)}
     return rec
 
 
